@@ -316,6 +316,10 @@ pub fn record(args: &[String]) {
 		let name = only.unwrap_or(NAMES[((k + seed) % NAMES.len() as u64) as usize]);
 		let cfg = random_cfg(name, &mut rng, vary == 1 && k % 3 != 0);
 		let mut g = Gen::new(rng.u64(), true);
+		// a volume-based source makes zero-volume bars zero "prices": relative changes (ROC) are undefined on them
+		g.no_zero_volume = cfg.to_json().as_object().unwrap().values().any(|v| v == "volume" || v == "volumed_price");
+		// TrendStrengthIndex is a correlation: 0/0 on a flat window (undefined); its signal machine is specified on defined values
+		g.no_plateau = name == "TrendStrengthIndex";
 		let first = g.candle();
 		let inst = catch(|| cfg.init(&first));
 		let res = match &inst {
@@ -326,13 +330,17 @@ pub fn record(args: &[String]) {
 		tw.ev(json!({"ev":"ind_new","name":name,"cfg":cfg_for_trace(&cfg.to_json()),"raw_cfg":cfg.to_json().to_string(),"c":candle_fx(&first),
 			"size":[cfg.size().0, cfg.size().1],"valid":cfg.validate(),"res":res,"k":cfg_k(&cfg.to_json()).max(4)}));
 		let cfgsize = json!([cfg.size().0, cfg.size().1]);
+		let ma_kinds: Vec<String> = cfg.to_json().as_object().unwrap().values().filter_map(|v| v.as_object().map(|o| {
+			let k = o.keys().next().unwrap().clone();
+			if k == "lin_reg" { "linreg".to_string() } else { k }
+		})).collect();
 		let Ok(Ok(mut inst)) = inst else { continue };
 		for i in 0..steps {
 			let c = if i == 0 { first } else { g.candle() };
 			match catch(|| inst.next(&c)) {
-				Ok(r) => tw.ev(json!({"ev":"ind_next","c":candle_fx(&c),"v":result_json(&r)["v"],"o":result_json(&r)["o"],"s":result_json(&r)["s"],"size":[r.size().0, r.size().1],"cfgsize":cfgsize})),
+				Ok(r) => tw.ev(json!({"ev":"ind_next","c":candle_fx(&c),"v":result_json(&r)["v"],"o":result_json(&r)["o"],"s":result_json(&r)["s"],"size":[r.size().0, r.size().1],"cfgsize":cfgsize,"raw_ma_kinds":ma_kinds})),
 				Err(e) => {
-					tw.ev(json!({"ev":"ind_next","c":candle_fx(&c),"v":[],"o":[],"s":[],"size":[0,0],"cfgsize":cfgsize,"panic":e}));
+					tw.ev(json!({"ev":"ind_next","c":candle_fx(&c),"v":[],"o":[],"s":[],"size":[0,0],"cfgsize":cfgsize,"raw_ma_kinds":ma_kinds,"panic":e}));
 					break;
 				}
 			}
